@@ -5,6 +5,7 @@ and spec/PktLogTrace.tla).
 from __future__ import annotations
 
 import asyncio
+from harness import vloop
 import glob
 import logging
 import os
@@ -265,6 +266,8 @@ def log_session(offers: list[dict], via: str = "port") -> dict:
             try:
                 if via == "port":
                     Packet.from_port(o["dtm"], line)
+                elif via == "ctor":  # a packet that exists by construction, whatever its annotations' text
+                    Packet(o["dtm"], f"{o['rssi']} {o['frame']}", err_msg=o["err"], comment=o["comment"])
                 else:
                     Packet.from_file(dtm_s, line)
                 acc = 1
@@ -351,14 +354,13 @@ def gateway_log_session(path: str) -> dict:
         t_start = dt.now() - td(seconds=1)
         out = []
         for src, dst in ((path, p1), (p1, p2)):
-            loop = asyncio.new_event_loop()
-            loop.set_exception_handler(lambda _l, _c: None)     # what a handler raises is C13's subject, not C02's
+            # virtual time: Engine.start() waits for the end of the replay with a 1 s (wall-clock) time-out, which a
+            # loaded machine exceeds on the larger logs; on the virtual loop time stands still while handles are ready.
+            # What a handler raises into the loop is C13's subject, not C02's (VLoop only collects it).
             try:
-                asyncio.set_event_loop(loop)
-                out.append(loop.run_until_complete(_gwy_replay(src, dst)))
+                res, _loop = vloop.run(lambda s=src, d=dst: _gwy_replay(s, d))
+                out.append(res)
             finally:
-                loop.close()
-                asyncio.set_event_loop(None)
                 logging.setLogRecordFactory(factory)
         first, second = out
         written = [dict(r, err="", acc=1) for r in first]
